@@ -36,7 +36,11 @@ def mk_scenario(max_topics, kinds=KINDS, planted=None, datas=DATAS):
             buf, _ = sym_image(e, f'img{k}', shape)
             rw = bool(e.choice(f'rw{k}', 2))
             if kind == 'raw':
-                f = Frame(NDArray(buf, shape, rw), dict(data), None if fmt == 'GRAY' else fmt)
+                layout = 'CF'[e.choice(f'layout{k}', 2)]         # contiguous, or axes permuted in memory (transpose / rot90 / .T / Fortran order)
+                if layout == 'F':
+                    shape = (2, 3) if fmt == 'GRAY' else (2, 3, 3)
+                    buf, _ = sym_image(e, f'imgF{k}', shape)
+                f = Frame(NDArray(buf, shape, rw, layout=layout), dict(data), None if fmt == 'GRAY' else fmt)
             elif kind in ('jpg_undecoded', 'jpg_decoded'):
                 f = Frame.from_jpg(JpgBlob(buf.fn, shape), dict(data), h, w, fmt)
                 if kind == 'jpg_decoded': f.image
@@ -45,6 +49,7 @@ def mk_scenario(max_topics, kinds=KINDS, planted=None, datas=DATAS):
                 f.jpg                                    # read-only image: encoding is cached
             frames[topic] = f
             src[topic] = (f, buf.fn, shape, fmt)
+            h, w = shape[0], shape[1]
         tm = MQ.frames2topicmsgs(frames, outs_jpg)
         # the wire: part 0 travels inside the JSON envelope, the rest as byte parts
         wire = {}
@@ -86,6 +91,7 @@ def mk_scenario(max_topics, kinds=KINDS, planted=None, datas=DATAS):
 
 def selfchecks(tier):
     from selftest import nd_selftest
+    from symex.runner import ConcreteViolation
     def real_codec():
         """the same round trip on the real numpy/cv2/mq for concrete samples incl. 1xN, Nx1, strided, gray-through-jpg"""
         import numpy as np
@@ -97,6 +103,9 @@ def selfchecks(tier):
             arrs = [base[:int(np.prod(shape))].reshape(shape)]
             big = base.reshape((shape[0], shape[1] * 2) + tuple(shape[2:]))
             arrs.append(big[:, ::2])      # strided view
+            sw = base[:int(np.prod(shape))].reshape((shape[1], shape[0]) + tuple(shape[2:]))
+            arrs.append(sw.transpose((1, 0, 2)) if len(shape) == 3 else sw.T)      # axes permuted in memory
+            arrs.append(np.asfortranarray(arrs[0]))
             for a in arrs:
                 for fmt in (('GRAY',) if len(shape) == 2 else ('BGR', 'RGB')):
                     for oj in (None, True, False):
@@ -107,7 +116,8 @@ def selfchecks(tier):
                             g = RMQ.topicmsgs2frames(wire)['main']
                             assert (g.height, g.width, g.format) == (f.height, f.width, f.format) and g.data == f.data, (shape, fmt, oj)
                             assert g.image.shape == a.shape
-                            if not oj: assert (g.image == a).all(), ('raw pixels', shape, fmt)
+                            if not oj and not (g.image == a).all():
+                                raise ConcreteViolation('pixels', f'real numpy/cv2/mq: raw round trip of a {a.shape} {fmt} image with strides {a.strides} (outs_jpg={oj}) is not pixel-identical')
                             else: assert abs(g.image.astype(int) - a.astype(int)).max() <= 80
                             n += 1
         return f'real codec round trip ok on {n} concrete frames (1xN, Nx1, strided, GRAY via jpg)'
